@@ -104,6 +104,19 @@ def record_random(args):
             kb['got'] = g2 if (g2 == 'true') == ok else f'builder-disagrees:{ok}'
             out.append(kb)
         out.append({**k, 'got': got})
+        if j % 50 == 0:
+            # distinct keys are a precondition the builder enforces: the same key given as bytes and as a VerifyKey
+            # object is one key (a lock listing it twice would let one holder fill two quorum slots)
+            from nacl.signing import VerifyKey
+            a, b_ = _pk(seed_of(1)), _pk(seed_of(2))
+            for keys_, q in (([a, VerifyKey(a)], 2), ([a, b_, VerifyKey(a)], 3), ([VerifyKey(a), a], 2)):
+                try:
+                    T.make_multisig_lock(keys_, q)
+                    refused = False
+                except ValueError:
+                    refused = True
+                # judged as a 1-key scenario with quorum q: never a quorum
+                out.append({'n': 1, 'm': 0, 'keys': [1], 'sigs': [], 'tid': 0, 'got': 'true' if refused else 'builder-accepted-duplicate-key'})
     return out
 
 
